@@ -9,12 +9,19 @@ Stage D: oracle 1 = the scan specification (`cxxscan`, capacity = the framer's o
          accepts (capacity >= 24 + alignment loss), each segment is scanned from scratch with the capacity in force; oracle 2 = the repository's Python decoder (max_payload = capacity_bytes_ - 24) against the C++
          callbacks; direct statements: header 4-byte aligned, return value = bytes dispatched by that call,
          independence of chunking (callbacks, total return value, final state), no sanitizer report.
+         Requests `M ...` keep 2-3 framer objects alive in one process with interleaved operations; each is judged like a
+         lone framer and against itself run alone (C07/framer-depends-on-another-instance).
+         big_cases(): 16-33 MB streams around MessageHeader::MAX_MESSAGE_SIZE_BYTES handed over as files (op F...), judged
+         by py_scan (the scan in Python, validated against `cxxscan` on every ordinary request) and the Python decoder.
 """
 import itertools
 import json
 import os
+import shutil
 import subprocess
+import tempfile
 import threading
+import zlib
 
 import fv
 import gen
@@ -44,11 +51,11 @@ def build_harness(ctx):
     return exe
 
 
-def run_harness(exe, lines):
+def run_harness(exe, lines, nproc=None):
     """Answers (one per request line) and the sanitizer text per faulting request index."""
     if not lines:
         return [], {}
-    nproc = min(12, max(1, len(lines) // 150))
+    nproc = nproc or min(12, max(1, len(lines) // 150))
     chunks = [lines[i::nproc] for i in range(nproc)]
     results = [None] * nproc
     errs = [None] * nproc
@@ -277,11 +284,56 @@ class Job:
     def __init__(self, data, kinds, cap, mode, ops, kind):
         self.data, self.kinds, self.cap, self.mode, self.ops, self.kind = data, kinds, cap, mode, ops, kind
         self.line = '%d %s %s' % (cap, mode, ops_text(ops))
+        self.multi = None      # (jobs of all framers alive at the same time, schedule, index of this one)
 
     def replay(self):
-        return {'stream': self.data.hex(), 'tokens': self.kinds, 'capacity': self.cap, 'mode': self.mode,
-                'ops': [op_replay(o) for o in self.ops],
-                'harness_request': self.line if len(self.line) < 4000 else self.line[:4000] + '...'}
+        r = {'stream': self.data.hex(), 'tokens': self.kinds, 'capacity': self.cap, 'mode': self.mode,
+             'ops': [op_replay(o) for o in self.ops],
+             'harness_request': self.line if len(self.line) < 4000 else self.line[:4000] + '...'}
+        if self.multi:
+            jobs, sched, k = self.multi
+            r['multi'] = {'unit': k, 'sched': sched,
+                          'parts': [{'stream': j.data.hex(), 'tokens': j.kinds, 'capacity': j.cap, 'mode': j.mode,
+                                     'ops': [op_replay(o) for o in j.ops]} for j in jobs]}
+        return r
+
+
+def multi_line(jobs, sched):
+    return 'M %d %s %s' % (len(jobs), sched or '-', ' '.join(j.line for j in jobs))
+
+
+def interleave(rng, counts):
+    """Random schedule: digit i = the next operation of framer i; runs of 1-3 operations."""
+    left = list(counts)
+    out = []
+    while any(left):
+        i = rng.choice([k for k, c in enumerate(left) if c])
+        r = min(left[i], rng.choice([1, 1, 1, 2, 3]))
+        out.append(str(i) * r)
+        left[i] -= r
+    return ''.join(out)
+
+
+def py_scan(cap, data):
+    """The specification scan (Cfg.run (cfgCxx cap)) in Python: [(offset, length)] of the accepted messages.  Compared
+    with the Lean `cxxscan` on every ordinary scan request of a run; used alone for streams too large for the driver."""
+    out = []
+    i, n = 0, len(data)
+    while True:
+        i = data.find(b'\x2e\x31', i)
+        if i < 0 or n - i < 24:
+            return out
+        size = 24 + int.from_bytes(data[i + 16:i + 20], 'little')
+        if size >= 1 << 32 or data[i + 2:i + 4] != b'\x00\x00' or size > cap:
+            i += 1
+            continue
+        if n - i < size:
+            return out
+        if zlib.crc32(data[i + 8:i + size]) == int.from_bytes(data[i + 4:i + 8], 'little'):
+            out.append((i, size))
+            i += size
+        else:
+            i += 1
 
 
 def fault_signature(job):
@@ -399,9 +451,37 @@ def cap_eff_of(cap, mode):
     return cap - slack if cap >= 24 + slack else None
 
 
-def run_jobs(ctx, exe, jobs, py_fraction=1.0):
-    lines = [j.line for j in jobs]
+def run_jobs(ctx, exe, jobs, py_fraction=1.0, multis=()):
+    """multis: [(jobs, schedule)] - framer objects alive in one process at the same time, operations interleaved.  Every
+    framer of such a group is judged like a lone one (model, scan, direct statements) and must answer what it answers
+    when run alone."""
+    jobs = list(jobs)
+    for mj, sched in multis:
+        jobs += mj        # each framer also alone in its own request
+    lines = [j.line for j in jobs] + [multi_line(mj, sched) for mj, sched in multis]
     impl, reports = run_harness(exe, lines)
+    alone = dict(zip(lines[:len(jobs)], impl))
+    n_alone = len(jobs)
+    mrep = {t: reports.pop(n_alone + t) for t in range(len(multis)) if n_alone + t in reports}
+    for t, (mj, sched) in enumerate(multis):
+        ans = impl[n_alone + t]
+        texts = ans.split('\t')
+        if len(texts) != len(mj):
+            texts = [ans] + ['skipped'] * (len(mj) - 1)     # fault / timeout: filed once
+        for k, (j, a) in enumerate(zip(mj, texts)):
+            u = Job(j.data, j.kinds, j.cap, j.mode, j.ops, 'second_framer')
+            u.multi = (mj, sched, k)
+            if k == 0 and t in mrep:
+                reports[len(jobs)] = mrep[t]
+            jobs.append(u)
+            impl.append(a)
+            solo = alone.get(u.line)
+            if solo is not None and solo.startswith('init|') and a.startswith('init|') and solo != a:
+                ctx.violation('C07/framer-depends-on-another-instance',
+                              'framer %d of %d alive at the same time (`%d %s`, operations interleaved %s) answers %s, alone in the '
+                              'process it answers %s' % (k, len(mj), u.cap, u.mode, sched[:40], a[:200], solo[:200]), u.replay())
+    del impl[n_alone:n_alone + len(multis)]
+    lines = [j.line for j in jobs]
     model = ctx.driver(['cxxframer ' + l for l in lines])
     # scan requests, deduplicated
     need = {}
@@ -418,6 +498,11 @@ def run_jobs(ctx, exe, jobs, py_fraction=1.0):
     keys = list(need)
     outs = ctx.driver(['cxxscan %d %s' % (c, s.hex() or '-') for c, s in keys])
     scans = dict(zip(keys, outs))
+    for (c, sdata), o in scans.items():     # the Python rendering of the scan agrees with the Lean specification
+        msgs = o.split('|')[0]
+        if [tuple(int(x) for x in m.split(':')) for m in msgs.split(',') if m] != py_scan(c, sdata):
+            raise fv.InfraError('py_scan differs from cxxscan for capacity %d stream %s' % (c, sdata.hex()[:400]))
+        ctx.count('py_scan_checked_against_lean')
     pycache = {}
     groups = {}
     for idx, (j, a, m) in enumerate(zip(jobs, impl, model)):
@@ -509,14 +594,178 @@ def setbuffer_sweep_jobs(ctx):
     return jobs
 
 
+def fine_chunks(rng, data):
+    how = rng.randrange(4)
+    if how == 0:
+        return [data[i:i + 1] for i in range(len(data))]
+    if how == 1:
+        k = rng.choice([2, 3, 5, 7, 11, 24])
+        return [data[i:i + k] for i in range(0, len(data), k)]
+    parts, i = [], 0
+    while i < len(data):
+        k = rng.choice([1, 2, 3, 5, 8, 13, 23, 24, 25, 60])
+        parts.append(data[i:i + k])
+        i += k
+    return parts
+
+
+def multi_groups(ctx, pool):
+    """2-3 framer objects alive at the same time: different streams (taken from the streams of this run), capacities and
+    buffer kinds; fine divisions, operations interleaved (strict alternation / random runs); some with Reset() and
+    SetBuffer() in between."""
+    rng = ctx.rng
+    groups = []
+    pool = [d for d in pool if 24 <= len(d[0]) <= 600] or pool
+    for it in range(120 if not ctx.thorough else 500):
+        n = rng.choice([2, 2, 2, 3])
+        mj = []
+        for _ in range(n):
+            data, kinds = rng.choice(pool)
+            cap = rng.choice(CAPS + [len(data) + 24])
+            ch = fine_chunks(rng, data)
+            r = rng.random()
+            ops = with_resets(rng, ch) if r < 0.15 else with_buffers(rng, ch) if r < 0.3 else ch
+            mj.append(Job(data, kinds, cap, rng.choice(MODES), ops, 'second_framer_alone'))
+        counts = [len(j.ops) for j in mj]
+        sched = ''.join(''.join(str(i) for i in range(n)) for _ in range(max(counts))) if it % 3 == 0 else interleave(rng, counts)
+        groups.append((mj, sched))
+    return groups
+
+
+BIG = 1 << 24      # MessageHeader::MAX_MESSAGE_SIZE_BYTES, the size limit the library documents
+
+
+def big_cases(ctx, exe):
+    """A handful of streams with one very large message around the documented 2^24-byte limit (message size 2^24-1, 2^24,
+    2^24+1; payload 2^24-16, 2^24-15, 2^24, 2^24+1; one well above), between two small messages, with a buffer that holds
+    it (and once a buffer one byte too small), in one OnData() call and in multi-megabyte pieces.  The streams are handed
+    to the harness as files; the Lean driver is not involved (hex lines of 32 MB): the callbacks are judged by py_scan
+    (checked against the Lean scan on every ordinary request of this run) and by the Python decoder."""
+    rng = ctx.rng
+    payloads = [BIG - 25, BIG - 24, BIG - 23, BIG - 16, BIG - 15, BIG, BIG + 1, 20000003]
+    if not ctx.thorough:
+        payloads = [rng.choice(payloads[:3]), BIG - 16, BIG - 15, rng.choice(payloads[5:])]
+    tmp = tempfile.mkdtemp(prefix='c07big')
+    try:
+        cases = []
+        for n in payloads:
+            seed = rng.getrandbits(32)
+            data = big_stream(seed, n)
+            path = os.path.join(tmp, 'p%d.bin' % n)
+            with open(path, 'wb') as f:
+                f.write(data)
+            size = 24 + n
+            forms = [('whole', [len(data)])]
+            k = rng.choice([5000003, 8388608, 4194301])
+            forms.append(('pieces', [min(k, len(data) - o) for o in range(0, len(data), k)]))
+            if not ctx.thorough:
+                forms = [forms[len(cases) % 2]]
+            for fi, (name, lens) in enumerate(forms):
+                mode = rng.choice(MODES)
+                slack = 0 if mode == 'i' else (4 - int(mode)) % 4
+                cap = size + slack + rng.choice([0, 0, 1, 4096, 1 << 20]) - (3 if mode == 'i' else 0) * rng.choice([0, 1])
+                cases.append({'payload': n, 'seed': seed, 'capacity': cap, 'mode': mode, 'pieces': lens, 'path': path, 'data': data})
+            if ctx.thorough or n == BIG - 15:
+                # the buffer is one byte too small: the message is not framed, the small ones around it are
+                cases.append({'payload': n, 'seed': seed, 'capacity': size - 1, 'mode': '0', 'pieces': [len(data)], 'path': path, 'data': data})
+        lines = []
+        for c in cases:
+            ops, off = [], 0
+            for l in c['pieces']:
+                ops.append('F%s:%d:%d' % (c['path'], off, l))
+                off += l
+            lines.append('%d %s %s' % (c['capacity'], c['mode'], ','.join(ops)))
+        impl, reports = run_harness(exe, lines, nproc=min(4, len(lines)))
+        pycache = {}
+        for idx, (c, a) in enumerate(zip(cases, impl)):
+            judge_big(ctx, c, a, reports.get(idx), pycache)
+    finally:
+        shutil.rmtree(tmp, ignore_errors=True)
+
+
+def big_stream(seed, n):
+    import random
+    r = random.Random(seed)
+    pay = r.randbytes(n).replace(b'\x2e', b'\x2f')    # no sync byte inside: a rejected 16 MB candidate is rescanned once
+    return b'\x00\x2e' + gen.frame(9, b'q', seq=1) + gen.frame(10, pay, seq=2) + gen.frame(9, b'abc', seq=3) + b'\x2e\x31\x00'
+
+
+def judge_big(ctx, c, ans, report, pycache):
+    data = c['data']
+    rp = {'big': {k: c[k] for k in ('payload', 'seed', 'capacity', 'mode', 'pieces')},
+          'stream': 'big_stream(seed, payload) of tools/props/c07.py: junk, a 25-byte message, a message with `payload` bytes, a 27-byte message, junk'}
+    ctx.count('kind_big_message')
+    ctx.case('big %d %s %d %s' % (c['capacity'], c['mode'], c['payload'], c['pieces']), nontrivial=True)
+    if ans in ('fault', 'timeout', 'skipped') or not ans.startswith('init|'):
+        if report:
+            rp['sanitizer'] = report
+        ctx.violation('C07/sanitizer-report' if ans == 'fault' else 'C07/does-not-terminate' if ans == 'timeout' else 'C07/big-message-harness',
+                      'capacity %d mode %s, message of %d bytes: harness answered %s %s' % (c['capacity'], c['mode'], 24 + c['payload'], ans[:80], (report or '')[:300]), rp)
+        return
+    recs = ans.split(';')
+    hasbuf, cap_eff = int(recs[0].split('|')[1]), int(recs[0].split('|')[2])
+    slack = 0 if c['mode'] == 'i' else (4 - int(c['mode'])) % 4
+    if not hasbuf or not (cap_eff == c['capacity'] - slack if c['mode'] != 'i' else c['capacity'] <= cap_eff <= c['capacity'] + 3):
+        ctx.violation('C07/capacity-after-construction', 'capacity %d mode %s: buffer=%d capacity_bytes_=%d' % (c['capacity'], c['mode'], hasbuf, cap_eff), rp)
+        return
+    got = []      # (header bytes, payload length, adler32, crc32)
+    total = 0
+    for r in recs[1:]:
+        f = r.split('|')
+        ret = int(f[1])
+        calls = [] if f[0] == '-' else f[0].split(',')
+        here = 0
+        for cb in calls:
+            a, _, body = cb.partition(':')
+            if a != '0':
+                ctx.violation('C07/header-misaligned', 'callback header at address = %s mod 4' % a, rp)
+                return
+            if '#' in body:
+                h, _, d = body.partition('#')
+                ln, ad, cr = (int(x) for x in d.split('.'))
+                got.append((bytes.fromhex(h), ln, ad, cr))
+            else:
+                m = bytes.fromhex(body)
+                got.append((m[:24], len(m) - 24, zlib.adler32(m[24:]), zlib.crc32(m[24:])))
+            here += 24 + got[-1][1]
+        if ret != here:
+            ctx.violation('C07/return-value', 'OnData returned %d, dispatched %d bytes in %d messages' % (ret, here, len(calls)), rp)
+            return
+        total += ret
+    want = py_scan(cap_eff, data)
+    exp = [(data[o:o + 24], n - 24, zlib.adler32(data[o + 24:o + n]), zlib.crc32(data[o + 24:o + n])) for o, n in want]
+    if got != exp:
+        ctx.violation('C07/callbacks-differ-from-scan',
+                      'capacity_bytes_=%d: framer dispatched %d messages %s, the scan accepts %d %s (stream of %d bytes with one message of '
+                      '%d bytes, handed over in %d OnData call(s))' % (cap_eff, len(got), [24 + g[1] for g in got], len(exp), [n for _, n in want],
+                                                                     len(data), 24 + c['payload'], len(c['pieces'])), rp)
+        return
+    ctx.count('messages_dispatched', len(got))
+    # the Python decoder with the equivalent limit.  Its header type refuses payloads above 2^24 whatever the limit (by
+    # design, see the assumptions), and it needs minutes to skip a rejected 16 MB candidate: compared when the large
+    # message is within both limits
+    if c['payload'] <= BIG and 24 + c['payload'] <= cap_eff:
+        key = (cap_eff, c['payload'], c['seed'])
+        if key not in pycache:
+            pycache[key] = python_decoder(data, cap_eff - 24)
+            ctx.count('python_decoder_runs')
+        py = pycache[key]
+        if py is not None and [(m[:24], len(m) - 24, zlib.crc32(m[24:])) for m in py] != [(g[0], g[1], g[3]) for g in got]:
+            ctx.violation('C07/differs-from-python-decoder',
+                          'capacity_bytes_=%d: framer dispatched %s, FusionEngineDecoder(max_payload=%d) returned %s'
+                          % (cap_eff, [24 + g[1] for g in got], cap_eff - 24, [len(m) for m in py]), rp)
+
+
 def run(ctx, exe, budget):
     jobs = construction_jobs() + setbuffer_sweep_jobs(ctx)
-    for data, kinds in streams(ctx, budget):
+    pool = streams(ctx, budget)
+    for data, kinds in pool:
         for t in kinds if kinds.isalpha() and kinds.isupper() else ['x']:
             ctx.count('token_' + t)
         for cap, mode, ops, kind in requests_for(ctx, data, kinds):
             jobs.append(Job(data, kinds, cap, mode, ops, kind))
-    run_jobs(ctx, exe, jobs, py_fraction=0.15 if not ctx.thorough else 0.5)
+    run_jobs(ctx, exe, jobs, py_fraction=0.15 if not ctx.thorough else 0.5, multis=multi_groups(ctx, pool))
+    big_cases(ctx, exe)
 
 
 def search(ctx):
@@ -537,7 +786,14 @@ def check(ctx):
                        '+ SetBuffer() sweep: at every byte position of a message (nothing pending / inside the header / inside the '
                        'payload / right after the dispatch) x from {caller, internal, no buffer} x to {caller, internal} x new '
                        'capacity {refused, smallest accepted, pending-1, pending, pending+1, old, larger}; '
-                       '+ every capacity 0..40 x every alignment. '
+                       '+ every capacity 0..40 x every alignment; '
+                       '+ 2-3 framer objects alive in one process (streams of this run, different capacities and buffer kinds, fine '
+                       'divisions, with Reset()/SetBuffer()), operations interleaved by strict alternation or random runs of 1-3: each '
+                       'judged like a lone framer and compared with itself run alone; '
+                       '+ one message around the documented 2^24-byte limit (message size 2^24-1 / 2^24 / 2^24+1, payload 2^24-16 / '
+                       '2^24-15 / 2^24 / 2^24+1 / 20 MB; quick tier: four of them) between small messages, buffer that just holds it or '
+                       'is larger (once one byte too small), one call or 4-8 MB pieces: judged by the Python rendering of the scan '
+                       '(compared with the Lean scan on every ordinary request) and the Python decoder, not by the Lean driver. '
                        'A case is non-trivial if the stream has >= 24 bytes or a message is dispatched; distinct = distinct harness '
                        'request' % (3 if ctx.thorough else 2, CAPS))
     ctx.assumptions += [
@@ -563,10 +819,33 @@ def check(ctx):
 def replay(ctx, path):
     obj = json.load(open(path))
     r = obj['input']
-    data = bytes.fromhex(r['stream'])
-    ops = [op_from_replay(o) for o in r['ops']]
     exe = build_harness(ctx)
     if not exe:
         return fv.finish(ctx, 'proof', None)
+    if r.get('big'):
+        b = r['big']
+        tmp = tempfile.mkdtemp(prefix='c07big')
+        try:
+            data = big_stream(b['seed'], b['payload'])
+            path = os.path.join(tmp, 'p.bin')
+            with open(path, 'wb') as f:
+                f.write(data)
+            ops, off = [], 0
+            for l in b['pieces']:
+                ops.append('F%s:%d:%d' % (path, off, l))
+                off += l
+            impl, reports = run_harness(exe, ['%d %s %s' % (b['capacity'], b['mode'], ','.join(ops))])
+            judge_big(ctx, dict(b, data=data, path=path), impl[0], reports.get(0), {})
+        finally:
+            shutil.rmtree(tmp, ignore_errors=True)
+        return fv.finish(ctx, 'proof', None)
+    if r.get('multi'):
+        m = r['multi']
+        mj = [Job(bytes.fromhex(q['stream']), q.get('tokens', ''), q['capacity'], q['mode'], [op_from_replay(o) for o in q['ops']], 'replay')
+              for q in m['parts']]
+        run_jobs(ctx, exe, [], multis=[(mj, m['sched'])])
+        return fv.finish(ctx, 'proof', None)
+    data = bytes.fromhex(r['stream'])
+    ops = [op_from_replay(o) for o in r['ops']]
     run_jobs(ctx, exe, [Job(data, r.get('tokens', ''), r['capacity'], r['mode'], ops, 'replay')])
     return fv.finish(ctx, 'proof', None)
